@@ -37,4 +37,217 @@ theorem cleanup_uses_remove_only (cfg : Cfg) (ps : List Path) (w : World) :
       exact Logs.pure _ _
   exact this w
 
+/-!
+### C13 (state level) — Rollback stays within the transaction's footprint
+
+`Props/C13.lean` shows that every primitive call of Rollback *names* a tracked path.  This file
+shows what that means for the two trees: for the OS model behind two `PrefixFS` layers, for EVERY
+well-formed link-free disk — no transaction invariant is assumed, so the two trees may have been
+modified arbitrarily by other actors since the operations ran — and for EVERY fault plan, whatever
+Rollback returns:
+
+* base: an entry `(kp k, oi)` of the tracked map (`k` not the root) lets Rollback change only
+  `k` itself, the keys below `k` when `k` is tracked as a regular file (`restoreFile` calls
+  `RemoveAll` when something that is not a regular file took the file's place), and the prefixes of
+  `k` when `k` is tracked as a directory (`MkdirAll` recreates missing ancestors) — `Touches`.
+  Every other entry of the base is left exactly as it is (directory timestamps aside);
+* regular files of the base are left byte for byte, with all their metadata, unless the file's key
+  is tracked or lies below a key tracked as a regular file — `TouchesFile`;
+* backup: only keys tracked with an original are changed (`Remove` of that key, never
+  `RemoveAll`): foreign content inside backup directories stays.
+
+The proof (Lemmas/Footprint.lean) is frame reasoning over the abstract contract `Sim` and uses only
+its unconditional `*_frame` / `pure_*` laws.  Hypotheses: tracked paths are absolute cleaned paths,
+the root is not tracked as "did not exist", no tracked original is a symlink (link-free fragment:
+the contract has no law for `Symlink`).
+
+Remark on the coarse form (`rollback_leaves_unrelated_keys_alone`): "unrelated to every tracked
+key" must except the root — every operation tracks the root, which is a prefix of every key — and
+even then says nothing about a foreign entry inside a tracked directory; the fine form does.
+-/
+
+
+/-- T13.3 (main) Rollback changes the base only inside the footprint of the tracked map, regular
+files only inside the narrower file footprint, and the backup only at keys tracked with an
+original — any well-formed disk, any fault plan.
+
+The one way Rollback reaches base entries that no operation named and that are not missing
+ancestors is the second disjunct of `Touches`/`TouchesFile` (case (b)): a key `k` tracked as a
+regular FILE whose place is now held by something that is not a regular file (the transaction, or
+another actor, put a directory there).  `restoreFile` then issues `RemoveAll k` before writing the
+file back (fs_utils.go, `!fi.Mode().IsRegular() || (baseExists && !baseFi.Mode().IsRegular())`):
+restoring the original file necessarily removes whatever lies below `k`, including entries another
+actor created inside that directory.  This is a deliberate repair and no violation of the property,
+whose second clause speaks of entries created inside PRE-EXISTING directories (such a directory is
+not pre-existing: originally `k` was a file).  By contrast a key tracked as absent is removed with
+`Remove`, never `RemoveAll`: foreign entries inside a directory the transaction created survive
+(the `Remove` fails and Rollback reports the error), and a key tracked as a directory never
+affects what lies below it. -/
+theorem rollback_leaves_unrelated_entries_alone (bk kk : Key) (hbk : PKey bk) (hkk : PKey kk)
+    (hne1 : bk ≠ []) (hne2 : kk ≠ []) (hd1 : ¬ bk <+: kk) (hd2 : ¬ kk <+: bk)
+    (w : World) (hg : OSGood bk kk w.fs)
+    (hkeys : ∀ p oi, (p, oi) ∈ w.infos → ∃ k, PKey k ∧ p = kp k)
+    (hroot : (kp [], none) ∉ w.infos)
+    (hnolink : ∀ p i, (p, some i) ∈ w.infos → i.kind ≠ .link) :
+    let w' := (rollback (osCfg bk kk) w).1
+    OSGood bk kk w'.fs ∧
+    (∀ j, (∀ k oi, (kp k, oi) ∈ w.infos → PKey k → k ≠ [] → ¬ Touches k oi j) →
+      (w'.fs.get (bk ++ j)).map eraseMt = (w.fs.get (bk ++ j)).map eraseMt) ∧
+    (∀ j c mt, w.fs.get (bk ++ j) = some (.file c mt) →
+      (∀ k oi, (kp k, oi) ∈ w.infos → PKey k → k ≠ [] → ¬ TouchesFile k oi j) →
+      w'.fs.get (bk ++ j) = some (.file c mt)) ∧
+    (∀ j, (j = [] ∨ ∀ i, (kp j, some i) ∉ w.infos) →
+      (w'.fs.get (kk ++ j)).map eraseMt = (w.fs.get (kk ++ j)).map eraseMt) := by
+  obtain ⟨g, hb, hf, hk⟩ :=
+    rollback_frame_entries (osSim bk kk hbk hkk hne1 hne2 hd1 hd2) (w := w) hg hkeys hroot hnolink
+  refine ⟨g, fun j hj => hb j hj, ?_, fun j hj => hk j hj⟩
+  intro j c mt hget hj
+  have hv : osView bk kk .base w.fs j = some (.file c mt) := by
+    rw [osView_eq]
+    show (w.fs.get (bk ++ j)).map eraseMt = _
+    rw [hget]; rfl
+  have := hf j hj ⟨c, mt, hv⟩
+  have hv' : osView bk kk .base (rollback (osCfg bk kk) w).1.fs j = some (.file c mt) := this.trans hv
+  obtain ⟨n0, h0, he⟩ := osView_some hv'
+  rw [eraseMt_file.mp he] at h0
+  exact h0
+
+/-- T13.4 "entries with fresh names that other actors created inside pre-existing directories
+survive": an entry `j` of the base such that no operation named `j` or anything below it, and no
+ancestor of `j` is tracked as a regular file, is left as it is (with everything it contains that is
+equally fresh). -/
+theorem foreign_entry_survives (bk kk : Key) (hbk : PKey bk) (hkk : PKey kk)
+    (hne1 : bk ≠ []) (hne2 : kk ≠ []) (hd1 : ¬ bk <+: kk) (hd2 : ¬ kk <+: bk)
+    (w : World) (hg : OSGood bk kk w.fs)
+    (hkeys : ∀ p oi, (p, oi) ∈ w.infos → ∃ k, PKey k ∧ p = kp k)
+    (hroot : (kp [], none) ∉ w.infos)
+    (hnolink : ∀ p i, (p, some i) ∈ w.infos → i.kind ≠ .link)
+    (j : Key)
+    (hfresh : ∀ k oi, (kp k, oi) ∈ w.infos → PKey k → ¬ j <+: k)
+    (hnofile : ∀ k i, (kp k, some i) ∈ w.infos → PKey k → i.kind = .file → ¬ k <+: j) :
+    ((rollback (osCfg bk kk) w).1.fs.get (bk ++ j)).map eraseMt = (w.fs.get (bk ++ j)).map eraseMt := by
+  refine (rollback_leaves_unrelated_entries_alone bk kk hbk hkk hne1 hne2 hd1 hd2 w hg hkeys hroot hnolink).2.1 j ?_
+  intro k oi hm hk _ ht
+  rcases ht with rfl | ⟨i, rfl, hkind, hpre⟩ | ⟨_, _, _, hpre⟩
+  · exact hfresh _ oi hm hk (List.prefix_refl _)
+  · exact hnofile k i hm hk hkind hpre
+  · exact hfresh k oi hm hk hpre
+
+/-- T13.5 "files never named by an operation keep whatever content they have": a regular file
+whose key is not tracked, and which does not lie below a key tracked as a regular file, keeps its
+content, mode, owner and modification time. -/
+theorem unnamed_file_keeps_content (bk kk : Key) (hbk : PKey bk) (hkk : PKey kk)
+    (hne1 : bk ≠ []) (hne2 : kk ≠ []) (hd1 : ¬ bk <+: kk) (hd2 : ¬ kk <+: bk)
+    (w : World) (hg : OSGood bk kk w.fs)
+    (hkeys : ∀ p oi, (p, oi) ∈ w.infos → ∃ k, PKey k ∧ p = kp k)
+    (hroot : (kp [], none) ∉ w.infos)
+    (hnolink : ∀ p i, (p, some i) ∈ w.infos → i.kind ≠ .link)
+    (j : Key) (c : String) (mt : Meta) (hfile : w.fs.get (bk ++ j) = some (.file c mt))
+    (hunnamed : ∀ oi, (kp j, oi) ∉ w.infos)
+    (hnofile : ∀ k i, (kp k, some i) ∈ w.infos → PKey k → i.kind = .file → ¬ k <+: j) :
+    (rollback (osCfg bk kk) w).1.fs.get (bk ++ j) = some (.file c mt) := by
+  refine (rollback_leaves_unrelated_entries_alone bk kk hbk hkk hne1 hne2 hd1 hd2 w hg hkeys hroot hnolink).2.2.1
+    j c mt hfile ?_
+  intro k oi hm hk _ ht
+  rcases ht with rfl | ⟨i, rfl, hkind, hpre⟩
+  · exact hunnamed oi hm
+  · exact hnofile k i hm hk hkind hpre
+
+/-- T13.6 "in the backup filesystem Rollback removes only what BackupFS put there": a backup
+entry whose key is not tracked with an original — in particular foreign content inside backup
+directories — is left in place. -/
+theorem foreign_backup_content_survives (bk kk : Key) (hbk : PKey bk) (hkk : PKey kk)
+    (hne1 : bk ≠ []) (hne2 : kk ≠ []) (hd1 : ¬ bk <+: kk) (hd2 : ¬ kk <+: bk)
+    (w : World) (hg : OSGood bk kk w.fs)
+    (hkeys : ∀ p oi, (p, oi) ∈ w.infos → ∃ k, PKey k ∧ p = kp k)
+    (hroot : (kp [], none) ∉ w.infos)
+    (hnolink : ∀ p i, (p, some i) ∈ w.infos → i.kind ≠ .link)
+    (j : Key) (huntracked : ∀ i, (kp j, some i) ∉ w.infos) :
+    ((rollback (osCfg bk kk) w).1.fs.get (kk ++ j)).map eraseMt = (w.fs.get (kk ++ j)).map eraseMt :=
+  (rollback_leaves_unrelated_entries_alone bk kk hbk hkk hne1 hne2 hd1 hd2 w hg hkeys hroot hnolink).2.2.2
+    j (Or.inr huntracked)
+
+/-- T13.7 the coarse form: base keys unrelated (neither below nor above) to every tracked key
+other than the root, and backup keys that are not tracked, are untouched. -/
+theorem rollback_leaves_unrelated_keys_alone (bk kk : Key) (hbk : PKey bk) (hkk : PKey kk)
+    (hne1 : bk ≠ []) (hne2 : kk ≠ []) (hd1 : ¬ bk <+: kk) (hd2 : ¬ kk <+: bk)
+    (w : World) (hg : OSGood bk kk w.fs)
+    (hkeys : ∀ p oi, (p, oi) ∈ w.infos → ∃ k, PKey k ∧ p = kp k)
+    (hroot : (kp [], none) ∉ w.infos)
+    (hnolink : ∀ p i, (p, some i) ∈ w.infos → i.kind ≠ .link) :
+    let w' := (rollback (osCfg bk kk) w).1
+    OSGood bk kk w'.fs ∧
+    (∀ j, (∀ p oi k, (p, oi) ∈ w.infos → p = kp k → PKey k → k ≠ [] → Unrelated j k) →
+      (w'.fs.get (bk ++ j)).map eraseMt = (w.fs.get (bk ++ j)).map eraseMt) ∧
+    (∀ j, (∀ p oi k, (p, oi) ∈ w.infos → p = kp k → PKey k → j ≠ k) →
+      (w'.fs.get (kk ++ j)).map eraseMt = (w.fs.get (kk ++ j)).map eraseMt) := by
+  obtain ⟨g, hb, hk⟩ :=
+    rollback_frame_unrelated (osSim bk kk hbk hkk hne1 hne2 hd1 hd2) (w := w) hg hkeys hroot hnolink
+  exact ⟨g, fun j hj => hb j hj, fun j hj => hk j hj⟩
+
+/-! ### non-vacuity -/
+
+def exDirInfo : Info := { name := [], size := 0, kind := .dir, perm := 0o755, mtime := .old 0, uid := 0, gid := 0 }
+
+/-- the example disk of `Lemmas/SimOS.lean` (`/b` with a file `f` and a directory `d`; backup root
+`/k`) in the middle of a transaction that named `/d/e` (absent), hence tracks `/`, `/d`, `/d/e`;
+one `Remove` is planned to fail -/
+def exWorld : World :=
+  { fs := exDisk,
+    infos := [(kp [], some exDirInfo), (kp [['d']], some exDirInfo), (kp [['d'], ['e']], none)],
+    faults := [{ sig := { side := .base, method := "remove", args := [kp [['d'], ['e']]] }, occ := 0 }] }
+
+theorem exWorld_mem {k : Key} {oi : Option Info} (hm : (kp k, oi) ∈ exWorld.infos) (hk : PKey k) :
+    (k = [] ∧ oi = some exDirInfo) ∨ (k = [['d']] ∧ oi = some exDirInfo) ∨ (k = [['d'], ['e']] ∧ oi = none) := by
+  simp only [exWorld, List.mem_cons, Prod.mk.injEq, List.not_mem_nil, or_false] at hm
+  rcases hm with ⟨h, rfl⟩ | ⟨h, rfl⟩ | ⟨h, rfl⟩
+  · exact Or.inl ⟨kp_inj hk (by decide) h, rfl⟩
+  · exact Or.inr (Or.inl ⟨kp_inj hk (by decide) h, rfl⟩)
+  · exact Or.inr (Or.inr ⟨kp_inj hk (by decide) h, rfl⟩)
+
+/-- the hypotheses of the theorems above hold of `exWorld`; a foreign entry `/d/x` satisfies the
+premise of T13.4, the untracked file `/f` that of T13.5, a foreign backup entry `/d/y` that of
+T13.6 -/
+example :
+    OSGood [['b']] [['k']] exWorld.fs ∧
+    (∀ p oi, (p, oi) ∈ exWorld.infos → ∃ k, PKey k ∧ p = kp k) ∧
+    (kp [], none) ∉ exWorld.infos ∧
+    (∀ p i, (p, some i) ∈ exWorld.infos → i.kind ≠ .link) ∧
+    (∀ k oi, (kp k, oi) ∈ exWorld.infos → PKey k → ¬ [['d'], ['x']] <+: k) ∧
+    (∀ k i, (kp k, some i) ∈ exWorld.infos → PKey k → i.kind = .file → ¬ k <+: [['d'], ['x']]) ∧
+    exWorld.fs.get ([['b']] ++ [['f']]) = some (.file "hello" { exMeta with mode := 0o644 }) ∧
+    (∀ oi, (kp [['f']], oi) ∉ exWorld.infos) ∧
+    (∀ k i, (kp k, some i) ∈ exWorld.infos → PKey k → i.kind = .file → ¬ k <+: [['f']]) ∧
+    (∀ i, (kp [['d'], ['y']], some i) ∉ exWorld.infos) := by
+  refine ⟨osGood_example, ?_, ?_, ?_, ?_, ?_, rfl, ?_, ?_, ?_⟩
+  · intro p oi hm
+    simp only [exWorld, List.mem_cons, Prod.mk.injEq, List.not_mem_nil, or_false] at hm
+    rcases hm with ⟨rfl, _⟩ | ⟨rfl, _⟩ | ⟨rfl, _⟩
+    · exact ⟨[], by decide, rfl⟩
+    · exact ⟨[['d']], by decide, rfl⟩
+    · exact ⟨[['d'], ['e']], by decide, rfl⟩
+  · decide
+  · intro p i hm
+    simp only [exWorld, List.mem_cons, Prod.mk.injEq, List.not_mem_nil, or_false] at hm
+    rcases hm with ⟨_, h⟩ | ⟨_, h⟩ | ⟨_, h⟩
+    · cases h; decide
+    · cases h; decide
+    · cases h
+  · intro k oi hm hk
+    rcases exWorld_mem hm hk with ⟨rfl, _⟩ | ⟨rfl, _⟩ | ⟨rfl, _⟩ <;> decide
+  · intro k i hm hk hkind
+    rcases exWorld_mem hm hk with ⟨_, h⟩ | ⟨_, h⟩ | ⟨_, h⟩
+    · cases h; cases hkind
+    · cases h; cases hkind
+    · cases h
+  · intro oi hm
+    rcases exWorld_mem hm (by decide) with ⟨h, _⟩ | ⟨h, _⟩ | ⟨h, _⟩ <;> exact absurd h (by decide)
+  · intro k i hm hk hkind
+    rcases exWorld_mem hm hk with ⟨_, h⟩ | ⟨_, h⟩ | ⟨_, h⟩
+    · cases h; cases hkind
+    · cases h; cases hkind
+    · cases h
+  · intro i hm
+    rcases exWorld_mem hm (by decide) with ⟨h, _⟩ | ⟨h, _⟩ | ⟨h, _⟩ <;> exact absurd h (by decide)
+
 end Props.C13
